@@ -246,6 +246,21 @@ def check(model, rep):
     else:
         rep.ob('R09.9', fk9, 'every returning path of FK runs a solver', n99 >= 1, 'no returning path found')
     rep.floor('R09.9', 'returning paths of SP.FK', n99, 2)
+    # ---------------------------------------------------------------- R09.10
+    # The joint pattern of each plate is laid out by the constructors of the platform module (newSP: angles per plate, exchanged for the other
+    # handedness).  Rows of a rank-2 array exchanged by `a[i], a[j] = a[j], a[i]` are NOT exchanged: both rows end up equal (views), the two
+    # plates get one joint pattern, the platform is architecturally singular and forward kinematics no longer determines the pose.
+    rep.rule('R09.10', 'platform module: no exchange of rows of a rank >= 2 array through a tuple assignment of views (both rows would end up equal: '
+                       'e.g. one joint pattern on both plates of a left-handed platform)')
+    from .common_ops import view_swaps
+    n910 = 0
+    for fi_ in model.funcs_in(sp.module.name):
+        n910 += 1
+        for (ln_, txt_, arr_) in view_swaps(fi_):
+            rep.ob('R09.10', fi_, txt_, False,
+                   '`%s` is an array of rank >= 2: the right-hand side is a pair of VIEWS, so after the first row is overwritten the second store copies the new '
+                   'content back - both rows hold the same values (the old second one) instead of being exchanged' % arr_, line=ln_)
+    rep.ob('R09.10', sp.module.relpath, 'functions of the platform module scanned', n910 >= 20, '%d functions' % n910, qualname='<module>')
     # ---------------------------------------------------------------- R09.2
     rep.rule('R09.2', 'FK joint tables re-derived after every replacement of the plate-fixed joint coordinates (all paths, all public methods)')
     from ..engine import peval as _pe
